@@ -98,6 +98,8 @@ func dateCtor(ctor int, y, m, d int) (types.Date, bool) {
 	}
 }
 
+var nListen int
+
 func runC13(o Opts) error {
 	thorough := o.Tier == "thorough"
 	zones := c13Zones
@@ -203,6 +205,16 @@ func runC13(o Opts) error {
 				if st, err := cl.u.GetStatus(id); err == nil && st != nil {
 					s.Add(fmt.Sprintf("CSysDT %s %s %s", zt, civ, civOf(time.Time(st.SystemDateTime))),
 						map[string]any{"op": "sysdt", "tz": z.name, "civil": civ, "reported": time.Time(st.SystemDateTime).Format("2006-01-02 15:04:05 -0700")}, class+"/status", true)
+				}
+				// the same bytes as an event (function 0x20) through the listener, which recombines date and time itself
+				nListen++
+				if nListen%4 == 0 {
+					ev := append([]byte{}, reply...)
+					ev[1] = 0x20
+					if st := listenStatus(ev); st != nil {
+						s.Add(fmt.Sprintf("CSysDT %s %s %s", zt, civ, civOf(time.Time(st.SystemDateTime))),
+							map[string]any{"op": "sysdt", "tz": z.name, "civil": civ, "reported": time.Time(st.SystemDateTime).Format("2006-01-02 15:04:05 -0700")}, class+"/listen-event", true)
+					}
 				}
 			}
 		}
